@@ -177,6 +177,40 @@ func c06Delimit(c *core.Ctx, r *core.Reporter) {
 	}
 }
 
+// isHitReturn: the exit reports a cache hit — its boolean result is the constant true, or, when the results are bundled
+// in a struct, the struct it returns has its boolean field set to true.
+func isHitReturn(ret *ssa.Return) bool {
+	isTrue := func(v ssa.Value) bool {
+		cst, ok := v.(*ssa.Const)
+		return ok && cst.Value != nil && cst.Value.String() == "true"
+	}
+	switch len(ret.Results) {
+	case 2:
+		return isTrue(core.RetVal(ret, 1))
+	case 1:
+		u, ok := core.RetVal(ret, 0).(*ssa.UnOp)
+		if !ok {
+			return false
+		}
+		al, ok := u.X.(*ssa.Alloc)
+		if !ok {
+			return false
+		}
+		for _, ref := range *al.Referrers() {
+			fa, ok := ref.(*ssa.FieldAddr)
+			if !ok || fa.Referrers() == nil {
+				continue
+			}
+			for _, rr := range *fa.Referrers() {
+				if st, ok := rr.(*ssa.Store); ok && st.Addr == ssa.Value(fa) && isTrue(st.Val) && core.InstrDominates(st, ret) {
+					return true
+				}
+			}
+		}
+	}
+	return false
+}
+
 func c06Schema(c *core.Ctx, r *core.Reporter) {
 	fn := c.Func("", "PlanCache.lookup")
 	if fn == nil {
@@ -214,11 +248,7 @@ func c06Schema(c *core.Ctx, r *core.Reporter) {
 	// hit returns: second result is the constant true
 	okAll, nHits := true, 0
 	for _, ret := range core.Returns(fn) {
-		if len(ret.Results) != 2 {
-			continue
-		}
-		cst, ok := core.RetVal(ret, 1).(*ssa.Const)
-		if !ok || cst.Value == nil || cst.Value.String() != "true" {
+		if !isHitReturn(ret) {
 			continue
 		}
 		nHits++
@@ -464,13 +494,45 @@ func c06PerCall(c *core.Ctx, r *core.Reporter) {
 			continue
 		}
 		for _, ref := range *call.Referrers() {
-			ex, ok := ref.(*ssa.Extract)
-			if !ok || ex.Index != 1 {
-				continue
+			// the hit flag: second result, or the boolean field of a result struct
+			var flag ssa.Value
+			switch x := ref.(type) {
+			case *ssa.Extract:
+				if x.Index == 1 {
+					flag = x
+				}
+			case *ssa.Field:
+				if b, ok := x.Type().Underlying().(*types.Basic); ok && b.Kind() == types.Bool {
+					flag = x
+				}
 			}
-			for _, u := range *ex.Referrers() {
-				if iff, ok := u.(*ssa.If); ok {
-					hit = iff.Block().Succs[0]
+			var flags []ssa.Value
+			if flag != nil {
+				flags = append(flags, flag)
+			}
+			if st, ok := ref.(*ssa.Store); ok { // the result struct kept in a local: loads of its boolean field
+				if al, ok := st.Addr.(*ssa.Alloc); ok {
+					for _, ar := range *al.Referrers() {
+						fa, ok := ar.(*ssa.FieldAddr)
+						if !ok || fa.Referrers() == nil {
+							continue
+						}
+						if b, ok := fa.Type().(*types.Pointer).Elem().Underlying().(*types.Basic); !ok || b.Kind() != types.Bool {
+							continue
+						}
+						for _, ld := range *fa.Referrers() {
+							if u, ok := ld.(*ssa.UnOp); ok && u.Op == token.MUL {
+								flags = append(flags, u)
+							}
+						}
+					}
+				}
+			}
+			for _, fl := range flags {
+				for _, u := range *fl.Referrers() {
+					if iff, ok := u.(*ssa.If); ok {
+						hit = iff.Block().Succs[0]
+					}
 				}
 			}
 		}
@@ -627,14 +689,20 @@ func c06OwnDoc(c *core.Ctx, r *core.Reporter) {
 		r.Unknown("normalizeDocument", token.NoPos, "normalizeDocument / cloneOperation / normalizeSelectionSet not found")
 		return
 	}
+	// the clone: the result of cloneOperation or — when that helper is written in place — an operation definition that
+	// normalizeDocument allocates itself
 	fromClone := func(v ssa.Value) bool {
-		for _, o := range core.Origins(v) {
-			call, ok := o.(*ssa.Call)
-			if !ok || call.Call.StaticCallee() != co {
-				return false
+		os := core.Origins(v)
+		for _, o := range os {
+			if call, ok := o.(*ssa.Call); ok && call.Call.StaticCallee() == co && co != nd {
+				continue
 			}
+			if al, ok := o.(*ssa.Alloc); ok && al.Parent() == nd && core.TypeName(al.Type()) == "OperationDefinition" {
+				continue
+			}
+			return false
 		}
-		return len(core.Origins(v)) > 0
+		return len(os) > 0
 	}
 	okArg, n := true, 0
 	for _, ci := range core.CallsTo(nd, ns, false) {
